@@ -1,5 +1,5 @@
 (* C09 Header constraints gate a route in every form it can be reached. *)
-Require Import Base Regex Route Tree TreeProofs Router RouterProofs.
+Require Import Base Regex Route Tree TreeProofs TreeDispatch TreePriority TreePriorityTop Router RouterProofs RouterInv RouterPriority.
 
 (* whichever leaf reaches the route (long or short form of an optional segment, any method, static or
    not): tree matching returns a route only if its constraints hold for the request's headers *)
@@ -17,9 +17,34 @@ Theorem C09_replace : forall st rid h1 h2,
   infos (set_headers (set_headers st rid h1) rid h2) = infos (set_headers st rid h2).
 Proof. exact set_headers_replaces. Qed.
 
+(* INVISIBLE WHEN THE CONSTRAINTS FAIL.  In every reachable router state the candidates for a request are
+   exactly the matches by routes whose constraints hold for that request's headers - whichever form
+   (long, short) and whichever method reaches the route - and the answer is the least of them; a route
+   whose constraints fail is simply not among them, so lower-priority routes or not-found take over *)
+Theorem C09_invisible : forall compile (good : list elem -> Prop),
+  good [] -> (forall a b, good a -> good b -> render_elems a = render_elems b -> a = b) ->
+  forall st mi path hdrs, reachable_p compile good st ->
+  forall t, nth_error (trees st) mi = Some t ->
+  let hok := hdr_ok st hdrs in let segs := segs_of path in
+  (forall rid, (exists k, In (k, rid) (cands hok t segs [])) <->
+     exists r l ks ps, In (rid, r) (mroutes st mi) /\ forms compile r = Some l /\ In ks l /\ adm ks segs ps /\ hok rid = true) /\
+  match serve_tree st (Some mi) path hdrs with
+  | Found rid _ => exists k, In (k, rid) (cands hok t segs []) /\ forall c, In c (cands hok t segs []) -> key_le k (fst c)
+  | NotFound => cands hok t segs [] = []
+  end.
+Proof. intros compile good G0 Inj. exact (router_priority compile good G0 Inj). Qed.
+
+(* ... and the shortcut table answers the same (C10), so this covers fully static routes too *)
+Theorem C09_shortcut_too : forall compile (good : list elem -> Prop),
+  good [] -> (forall a b, good a -> good b -> render_elems a = render_elems b -> a = b) ->
+  (forall es s, good es -> In (EIdent s) es -> s <> [] /\ slash_free s) ->
+  forall st m path hdrs, reachable compile good st -> serve st m path hdrs = serve_tree st m path hdrs.
+Proof. intros compile good G0 Inj Gi. exact (unobservable compile good G0 Inj Gi). Qed.
+
 (* the matcher consults the constraint of the route, not of a particular leaf: both forms of a route
    with an optional segment carry the same route id (model of the repaired code, finding F2) *)
 
 Redirect "assum/C09.1" Print Assumptions C09_gate.
 Redirect "assum/C09.2" Print Assumptions C09_constrained_leaves_shortcut.
 Redirect "assum/C09.3" Print Assumptions C09_replace.
+Redirect "assum/C09.4" Print Assumptions C09_invisible.
